@@ -1,6 +1,7 @@
 package bounds
 
 import (
+	"fmt"
 	"go/types"
 
 	"golang.org/x/tools/go/ssa"
@@ -13,6 +14,7 @@ import (
 type Config struct {
 	K        int // disjunct cap
 	MaxDepth int // callee expansion depth
+	RetCap   int // disjuncts kept per expanded call
 }
 
 // Engine analyses entry functions and accumulates aggregated obligations.
@@ -23,6 +25,9 @@ type Engine struct {
 func New(prog *core.Program, cfg Config, hooks *Hooks) *Engine {
 	it := newInterp(prog, cfg.K, cfg.MaxDepth)
 	it.hooks = hooks
+	if cfg.RetCap > 0 {
+		it.retCap = cfg.RetCap
+	}
 	return &Engine{it: it}
 }
 
@@ -43,8 +48,12 @@ func (e *Engine) AnalyzeEntry(fn *ssa.Function) {
 	it.retStack = append(it.retStack, nil)
 	it.runRegion(f, fn, nil, fn.Blocks[0], s)
 	it.retStack = it.retStack[:len(it.retStack)-1]
+	// closures that were never expanded in context are analysed with unconstrained parameters
+	// and captured variables
 	for _, anon := range fn.AnonFuncs {
-		e.AnalyzeEntry(anon)
+		if !it.inlinedClosures[anon] {
+			e.AnalyzeEntry(anon)
+		}
 	}
 }
 
@@ -53,6 +62,9 @@ func (e *Engine) Funcs() map[*ssa.Function]bool { return e.it.funcs }
 func (e *Engine) Stats() (entail, feas, steps int) {
 	return e.it.nEntail, e.it.nFeas, e.it.steps
 }
+
+// MergeStats returns the largest join seen and the number of disjunct merges performed.
+func (e *Engine) MergeStats() (maxJoin, merges int) { return e.it.maxJoin, e.it.nMerges }
 
 // ---- hook helpers -------------------------------------------------------------------------------
 
@@ -143,4 +155,9 @@ func (d *Disjunct) MemInt(p ssa.Value, path string) *lin.Lin {
 func IsErrorType(t types.Type) bool {
 	n, ok := t.(*types.Named)
 	return ok && n.Obj().Pkg() == nil && n.Obj().Name() == "error"
+}
+
+// QueryProfile renders time spent in entailment by outcome and slicing level.
+func (e *Engine) QueryProfile() string {
+	return fmt.Sprintf("true: n=%v t=%v ; false: n=%v t=%v ; fast=%d", e.it.nTrue, e.it.tTrue, e.it.nFalse, e.it.tFalse, e.it.nFast)
 }
